@@ -146,6 +146,10 @@ func (x *Exec) callValue(fr *Frame, st *State, c *ssa.CallCommon, fval Value, ar
 		ret(fr, st, h(x, fr, st, c, args))
 		return
 	}
+	if isSlicesDelete(key) {
+		ret(fr, st, slicesDelete(x, fr, st, c, args))
+		return
+	}
 	if key == "sync.(*Once).Do" && len(args) == 2 {
 		x.escapeArgs(st, args)
 		// Once.Do(f): f runs at most once - explore both "f is called now" and "f was called before"
@@ -503,11 +507,18 @@ func (x *Exec) applyContractDesc(fr *Frame, st *State, d *calleeDesc, con *FuncC
 	// whatever the callee allocated exists from now on: it can never coincide with an object the
 	// caller allocates later. One allocation number is reserved for all of it, and every reference
 	// in the results is bounded by it.
+	nBefore := x.allocCount
 	x.allocCount++
+	if con.Attrs["allocates"] == "on" {
+		// the callee returns linked structures it allocated: memory that exists now keeps its contents,
+		// memory beyond it is the callee's (zz_alloc.go)
+		x.extendHeapForCallee(st, nBefore)
+	}
 	// results
 	rs := d.results
 	var results []Value
 	post := x.newSpecEnv(fr, st, pre)
+	post.freshBase = nBefore
 	post.pkg = env.pkg
 	for k2, v := range env.names {
 		post.names[k2] = v
